@@ -32,7 +32,9 @@ class C20(object):
                          'module.ran.with_expressions_that_look_like_lag_spellings',
                          'generator.warning_raised_and_caught',
                          'module.ran.driven_in_stages',
-                         'module.ran.with_lag_of_a_synonym_under_generator_reduction')
+                         'module.ran.with_lag_of_a_synonym_under_generator_reduction',
+                         'module.reported_non_convergence_of_a_slow_block',
+                         'generator.refused_a_block_that_defines_the_step_counter')
 
     def n_cases(self, tier):
         return 120 if tier == 'quick' else 6000
@@ -40,6 +42,25 @@ class C20(object):
     def make_case(self, rng, idx, tier):
         if idx == 0:
             return {'kind': 'bundled', 'name': 'SIM'}
+        if idx % 12 == 11:
+            # the block defines the step counter k itself (a calendar axis): the generator may refuse it (the name is reserved) - if it
+            # accepts it, the module has to honour it like any other block
+            T = rng.randint(2, 5)
+            start = rng.choice([2010.0, 1990.0, 0.5])
+            text = ('k = LAG_k + 0.25\nLAG_k = k(k-1)\nk(0) = %r\nx = 0.5*x + 0.01*t\nMaxTime = %d\nErr_Tolerance = 1e-9' % (start, T))
+            spec = {'maxtime': T, 'time': None, 'exos': [], 'tol': 1e-9, 'rho': 0.5, 'lags': [1], 'simul': [], 'decos': []}
+            return {'kind': 'block', 'spec': spec, 'text': text, 'gen_reduction': rng.random() < 0.5, 'reuse': None, 'drive': 'main',
+                    'may_be_refused': True}
+        if idx % 12 == 7:
+            # a loop gain close to one: the module's plain iteration may run out of passes - it may then stop with a report of
+            # non-convergence, but it may not hand back values that violate the block
+            gain = rng.choice([0.98, 0.99, 0.97])
+            T = rng.randint(2, 4)
+            g = [float(rng.randint(10, 30)) for _ in range(T + 2)]
+            text = 'Y = C + G\nC = %r*Y\nH = LAG_H + 0.125*Y\nLAG_H = H(k-1)\nMaxTime = %d\nErr_Tolerance = 1e-9\nexogenous\nG = %r' % (gain, T, g)
+            spec = {'maxtime': T, 'time': None, 'exos': [{'name': 'G', 'values': g}], 'tol': 1e-9, 'rho': gain, 'lags': [1], 'simul': [], 'decos': []}
+            return {'kind': 'block', 'spec': spec, 'text': text, 'gen_reduction': rng.random() < 0.5, 'reuse': None, 'drive': 'main',
+                    'may_report_non_convergence': True}
         spec = G.gen_affine(rng, rho=rng.choice([0.2, 0.5, 0.8]), tol=rng.choice([1e-6, 1e-8, 1e-9]),
                             maxtime=rng.randint(1, 10), ics=False, const_scale=rng.choice([1.0, 10.0, 100.0]))
         for e in spec['exos']:
@@ -200,6 +221,9 @@ class C20(object):
                     if reuse:
                         rec.count('generator.reused')
             except Exception as e:
+                if case.get('may_be_refused') and isinstance(e, NameError):
+                    rec.count('generator.refused_a_block_that_defines_the_step_counter')
+                    return self.done(rec, shape, False, nontrivial=True, obs={'outcome': repr(e)[:100]})
                 rec.violate('generator_failed', {'err': repr(e)[:300], 'text': case['text']})
                 return self.done(rec, shape, False)
             try:
@@ -229,6 +253,9 @@ class C20(object):
                     if drive != 'main':
                         rec.count('module.ran.driven_in_stages')
             except Exception as e:
+                if case.get('may_report_non_convergence') and isinstance(e, (ValueError, AssertionError, ArithmeticError)) and 'onverg' in str(e):
+                    rec.count('module.reported_non_convergence_of_a_slow_block')
+                    return self.done(rec, shape, True, nontrivial=True, obs={'outcome': repr(e)[:100]})
                 rec.violate('generated_module_does_not_run', {'err': repr(e)[:300], 'text': case['text'],
                                                               'user_time': bool(spec['time'])},
                             mechanism='module_does_not_run')
